@@ -346,7 +346,7 @@ def run(ctx):
     d1_cases = []
     if not fixed:
         rv = tlc.run("lifecycle/Lifecycle.tla", cfg_text=tlc.cfg(L.consts(["clone_existing"], 1, fixed=False), invariants=["ErrorNotSilentStrict"]),
-                     workdir=ctx.work, workers=4, coverage=False, allow_violation=True)
+                     workdir=ctx.work, workers=1, coverage=False, allow_violation=True)  # one worker: the same shortest counterexample every run
         ctx.add_tlc("ErrorNotSilent without the D1 exemption (counterexample expected)", rv)
         if not rv.violation:
             raise core.MachineryError("deviation D1 is active but TLC finds no counterexample to ErrorNotSilentStrict")
